@@ -125,3 +125,46 @@ def replay_history(rec, want):
     bad = [s for s, _, _ in hjmc.monitor_c03(comp, model) + hjmc.monitor_c08(comp, model)]
     print('monitors on final state:', bad)
     return 1
+
+
+def jumping_orders(rep, tier, prefixes=('O', 'R', 'place', 'best', 'tie', 'places')):
+    """C08 order-independence beyond the BFS bound (vlib/hjorder.py): all jumping orders of real result cards and of synthetic competitions (DAG over
+    positions with merging by internal state), and the orders within a deviation bound of round-robin for the 15-athlete Rio final"""
+    from data import hj_cards
+    from vlib import hjorder
+    tot = dict(nodes=0, calls=0, orders=0, comps=0)
+
+    def fold(name, st, viol, case_extra):
+        rep.part(name, **{k: v for k, v in st.items()})
+        tot['nodes'] += st['nodes']
+        tot['calls'] += st['calls']
+        tot['orders'] += st['orders_covered']
+        tot['comps'] += st['competitions']
+        seen = {}
+        for sig, hist, msg in viol:
+            if seen.get(sig, 0) < 4:
+                seen[sig] = seen.get(sig, 0) + 1
+                case = dict(case_extra)
+                case['history'] = [[k, str(a)] for k, a in hist] if 'competition' in case else hjmc.fmt_hist(hist)
+                rep.add_violation(Violation(sig, case, msg))
+    for name in ('ESAA_2015', 'WINNER_1066'):
+        st, viol = hjorder.explore_card(hj_cards.CARDS[name])
+        fold('all jumping orders of %s (DAG over positions, merged by internal state)' % name, st, viol, dict(competition=name))
+    k = 1 if tier == 'quick' else 2
+    st, viol = hjorder.deviate_card(hj_cards.RIO_2016, k)
+    fold('jumping orders of RIO_2016 within %d deviation(s) of round-robin' % k, st, viol, dict(competition='RIO_2016'))
+    runs = [(3, 2, 1, 12), (2, 3, 1, None)] if tier == 'quick' else [(3, 2, 2, None), (2, 3, 2, None), (4, 2, 1, 9), (3, 3, 1, 14)]
+    for n, R, J, limit in runs:
+        st, viol = hjorder.synthetic(n, R, J, limit=limit)
+        fold('all jumping orders of synthetic competitions: %d athletes, %d heights + closing height, jump-offs of <= %d rounds%s' % (
+            n, R, J, ', first %d reduced cards' % limit if limit else ''), st, viol, {})
+    c = rep.coverage
+    c['jumping_orders_covered'] = tot['orders']
+    c['jumping_order_nodes'] = tot['nodes']
+    c['evaluations'] = c.get('evaluations', 0) + tot['calls']
+    c['states'] = c.get('states', 0) + tot['nodes']
+    c['transitions'] = c.get('transitions', 0) + tot['calls']
+    c['traces_validated_against_impl'] = c.get('traces_validated_against_impl', 0) + tot['calls']
+    rep.assumptions.append('jumping orders: states that agree on the position (trials taken per athlete) and on the complete internal snapshot are merged; the 15-athlete '
+                           'final is explored within a deviation bound instead (the ranking list orders tied athletes by arrival, so merging does not help there)')
+    return tot
